@@ -28,9 +28,9 @@ type DocCfg struct {
 	MaxKids int
 	// MaxMembers, if > 0, bounds the number of members of every object.
 	MaxMembers int
-	Keys    []string
-	Strs    []string
-	Nums    []string
+	Keys       []string
+	Strs       []string
+	Nums       []string
 }
 
 func DefaultDocCfg() DocCfg {
